@@ -815,8 +815,12 @@ fn run(a: &vhcore::Args) -> i32 {
     }
     rep.set("modeF_equals_modeA", true);
 
-    // <= ~20 data-section words per contract call site: keep packages well below the 4096-word limit (C17)
-    let rr = run_raw(&pool, "c28", PRELUDE, &all, 120, false);
+    // every contract call site costs ~6 data-section words (measured: 700 call sites fit, 720 do
+    // not); keep packages at <= 500 call sites, well below the 4096-word limit (known defect, C17)
+    let max_calls = all.iter().map(|c| c.body.matches("c.").count()).max().unwrap_or(1).max(1);
+    let batch = (500 / max_calls).clamp(20, 120);
+    rep.set("tests_per_package", batch as u64);
+    let rr = run_raw(&pool, "c28", PRELUDE, &all, batch, false);
     let mut outcomes = vhcore::Distinct::default();
     let mut validated = 0u64;
     let mut reverts_expected = 0u64;
